@@ -380,3 +380,150 @@ def cases(rng, n, nops=14, prefix='pipe', rich=True):
         lines = cfg.conf_lines() + cfg.cfg_lines() + history(rng, cfg, nops)
         out.append(('%s-%d' % (prefix, i), lines))
     return out
+
+# ------------------------------------------------------------------------------------------------
+# guided histories: a light shadow of the proxy predicts (server, identifier) of forwarded requests
+# so that replies, duplicates, retries and table-full situations are hit with high probability.
+class Shadow:
+    def __init__(self, cfg):
+        self.cfg = cfg
+        self.nextid = {}
+        self.out = {}      # (server, id) -> (client, info)
+        for s in cfg.servers:
+            self.nextid[s.idx] = 1 if s.statsrv != 0 else 0
+
+    def route(self, uname, acct):
+        """index of the realm/server a User-Name is expected to go to (all servers connected, no losses)"""
+        u = uname.decode('latin-1')
+        for r in self.cfg.realms:
+            nm = r.name
+            hit = False
+            if nm == '*':
+                hit = True
+            elif nm.startswith('/'):
+                import re
+                hit = re.search(nm.strip('/'), u, re.I) is not None
+            else:
+                hit = u.lower().endswith('@' + nm.lower())
+            if hit:
+                lst = r.acc if acct else r.srv
+                return (r, lst[0] if lst else None)
+        return (None, None)
+
+    def forwarded(self, c, info):
+        cl = self.cfg.clients[c]
+        uname = info['uname']
+        if cl.rwuser:
+            import re
+            rx, rp = cl.rwuser
+            m = re.search(rx, uname.decode('latin-1'), re.I)
+            if m:
+                rep = re.sub(r'\\(\d)', lambda g: m.group(int(g.group(1))) or '', rp)
+                uname = rep.encode('latin-1')
+        r, s = self.route(uname, info['code'] == 4)
+        if s is None:
+            return None
+        i = self.nextid[s]
+        if i > 255:
+            i = 1 if self.cfg.servers[s].statsrv != 0 else 0
+        self.nextid[s] = i + 1
+        self.out[(s, i)] = (c, info)
+        return (s, i)
+
+def routable_name(rng, cfg, acct=False):
+    names = []
+    for r in cfg.realms:
+        lst = r.acc if acct else r.srv
+        if lst and not r.name.startswith('/') and r.name != '*':
+            names.append(r.name)
+    if names:
+        return ('%s@%s' % (rng.choice(['bob', 'alice', 'x']), rng.choice(names))).encode()
+    return b'bob@example.com'
+
+def clean_request(rng, cfg, c, code=1, ident=None, auth=None, uname=None, pwdlen=None, chap=False, extra=None, ma=True):
+    cl = cfg.clients[c]
+    ident = rng.randrange(256) if ident is None else ident
+    auth = rbytes(rng, 16) if auth is None else auth
+    uname = routable_name(rng, cfg, code == 4) if uname is None else uname
+    attrs = [(1, uname)]
+    if code == 1 and pwdlen:
+        attrs.append((2, radius.pwd_encrypt(rbytes(rng, pwdlen), cl.secret, auth)))
+    if code == 1 and chap:
+        attrs.append((3, rbytes(rng, 17)))
+    attrs += [(4, bytes([10, 0, 0, 9])), (31, b'00-11-22-33-44-55'), (33, rbytes(rng, 4))]
+    if extra:
+        attrs += extra
+    if ma:
+        attrs.insert(rng.randrange(len(attrs) + 1), (80, None))
+    pkt = radius.build(code, ident, auth, attrs, cl.secret)
+    return pkt, dict(code=code, id=ident, auth=auth, uname=uname)
+
+def rnd40(rng):
+    return hx(rbytes(rng, 40))
+
+def exchange_history(rng, cfg, n=4):
+    """request -> transmit -> (rich) reply -> drain, several times, with retransmissions of answered requests"""
+    sh = Shadow(cfg)
+    ops = []
+    now = 1000005
+    for _ in range(n):
+        c = rng.randrange(len(cfg.clients))
+        code = rng.choice([1, 1, 1, 4])
+        pkt, info = clean_request(rng, cfg, c, code=code, pwdlen=rng.choice([None, 5, 16, 17, 40, 128]), chap=rng.random() < 0.3)
+        ops.append('op cpkt %d %d %s %s' % (c, now, rnd40(rng), hx(pkt)))
+        fw = sh.forwarded(c, info)
+        for s in range(len(cfg.servers)):
+            ops.append('op wpass %d %d %s' % (s, now, rnd40(rng)))
+        now += rng.choice([0, 1, 2])
+        if fw:
+            s, i = fw
+            attrs = []
+            rcode = 5 if code == 4 else rng.choice([2, 2, 2, 3, 11])
+            if rng.random() < 0.8:
+                attrs.append('80:auto')
+            r = rng.random()
+            if r < 0.5:
+                # MS-MPPE keys: separate attributes or both in one
+                k1 = rbytes(rng, 2 + 16 * rng.choice([1, 2, 3]))
+                k2 = rbytes(rng, 2 + 16 * rng.choice([1, 2]))
+                if rng.random() < 0.5:
+                    attrs.append('26:' + hx(radius.vsa(311, [(16, k1), (17, k2)] if rng.random() < 0.5 else [(17, k2), (12, b'ab'), (16, k1)])))
+                else:
+                    attrs.append('26:' + hx(radius.vsa(311, [(16, k1)])))
+                    attrs.append('26:' + hx(radius.vsa(311, [(17, k2)])))
+            if r > 0.3 and rcode == 2:
+                for _ in range(rng.randrange(1, 3)):
+                    attrs.append('69:' + hx(bytes([rng.randrange(32)]) + bytes([0x80 | rng.randrange(128), rng.randrange(256)]) + rbytes(rng, 16 * rng.choice([1, 2, 3, 8]))))
+            if rng.random() < 0.5:
+                attrs.append('1:' + hx(rng.choice([info['uname'], b'bob', b'a-much-longer-inner-identity@example.org', info['uname'] + b'.x'])))
+            if rng.random() < 0.3:
+                attrs.append('18:' + hx(b'welcome'))
+            attrs += ['%d:%s' % (t, hx(v)) for t, v in rwgen.random_attrs(rng, cfg.servers[s].rwin, maxn=2)]
+            flags = rng.choice(['-'] * 6 + ['badauth', 'badma', 'wrongsecret'])
+            tgt = (s, i)
+            if rng.random() < 0.08:
+                tgt = (s, (i + 1) % 256)
+            ops.append('op sreply %d %d %d %s %d %s %s' % (tgt[0], tgt[1], now, rnd40(rng), rcode, flags, ' '.join(attrs)))
+            if flags != '-' and rng.random() < 0.7:
+                ops.append('op sreply %d %d %d %s %d - %s' % (s, i, now, rnd40(rng), rcode, ' '.join(attrs)))
+            if rng.random() < 0.4:
+                # retransmission of the (now answered) request, inside / at / after the duplicate interval
+                dup = cfg.clients[c].dupint if cfg.clients[c].dupint is not None else 10
+                dt = rng.choice([0, max(dup - 1, 0), dup, dup + 1])
+                ops.append('op cpkt %d %d %s %s' % (c, now + dt, rnd40(rng), hx(pkt)))
+                now += dt
+                sh.forwarded(c, info) if dt >= dup else None
+            if rng.random() < 0.5:
+                ops.append('op drain %d' % c)
+        now += rng.choice([0, 1, 3])
+    return ops
+
+def guided_cases(rng, n, maker, prefix, rich=True, cfgmod=None):
+    out = []
+    for i in range(n):
+        cfg = random_cfg(rng, rich)
+        if cfgmod:
+            cfgmod(rng, cfg)
+        lines = cfg.conf_lines() + cfg.cfg_lines() + maker(rng, cfg)
+        out.append(('%s-%d' % (prefix, i), lines))
+    return out
